@@ -1,7 +1,7 @@
 SPECIFICATION Spec
 CONSTANTS
   W = 2
-  Ids = {0, 1, 3, 4, 7}
+  Ids = {1, 3, 4, 7}
   MIds = {3, 4}
   ProbeIds = {2, 5}
   MaxOps = 3
